@@ -2,6 +2,7 @@ package props
 
 import (
 	"fmt"
+	"os"
 
 	"github.com/taurusgroup/multi-party-sig/verif/fw"
 	"github.com/taurusgroup/multi-party-sig/verif/mut"
@@ -27,7 +28,7 @@ func init() {
 }
 
 func runC04(c *fw.Ctx) {
-	if c.S.Bool(cmpRate(c, 30), 1000, "state-level") {
+	if c.S.Bool(cmpRate(c, 30), 1000, "state-level") || os.Getenv("VERIF_C04_STATE") != "" {
 		runC04State(c)
 		return
 	}
